@@ -318,6 +318,22 @@ def replay_reuse(spec):
             problems.append("py_simulate_model(%s) called twice on one model: first rows %s, initial condition %s" % (kw, firsts, want0))
         if problems:
             break
+    if not problems:
+        # first row = the initial condition with the assignment rules applied (rules of every frequency act at the first instant)
+        for safe in (False, True):
+            Mr = Model(species=["A", "B", "C"], reactions=[(["A"], [], "massaction", {"k": 0.5}, "fixed", [], ["A"], {"delay": 0.5})],
+                       rules=[("assignment", {"equation": "B = 2*A + 3"}, "dt"), ("assignment", {"equation": "C = A + 7"}, "repeated")],
+                       initial_condition_dict={"A": 4, "B": 0, "C": 0})
+            kw = dict(stochastic=True, delay=kind in ("delay", "delay_volume"), safe=safe)
+            if kind in ("volume", "delay_volume"):
+                kw["volume"] = 1.5
+            py_seed_random(5)
+            df = py_simulate_model(grid.copy(), Model=Mr, **kw)
+            row = {s_: float(df[s_].iloc[0]) for s_ in ("A", "B", "C")}
+            if row != {"A": 4.0, "B": 11.0, "C": 11.0}:
+                problems.append("py_simulate_model(%s): first row %s, the initial condition with the assignment rules applied is "
+                                "{'A': 4, 'B': 11, 'C': 11}" % (kw, row))
+                break
     return {"reproduced": bool(problems), "observed": problems[:3], "expected": "runs start from, and leave alone, the initial condition"}
 
 
